@@ -62,6 +62,23 @@ REGISTRY = {
         engine="E2 geom + E7 structural",
         ref="DESIGN.md §4 C03",
     ),
+    "C04": dict(
+        text="Coordinate-frame abstract interpretation (the C02 engine) of the training-data code: the four Dataset classes "
+        "(cache fill + __getitem__, in-memory and .npz), the four chunk functions + streaming __getitem__ and the functional "
+        "helpers are interpreted, and at every target generator, crop, augmenter call and in the returned sample the image "
+        "and the keypoints/centroids carry the same monomial (eff_scale x scale x augmentation transform) and the same set "
+        "of crop origins - for every image size, max height/width, scale, crop size and augmentation draw, because the "
+        "factors are symbolic. Premises of the leaf contracts are checked structurally: size matching returns the ratio it "
+        "resized with, resize_image scales both sides alike, every F.pad of the data package pads right/bottom only, crops are "
+        "resampled to the size their box was built with, the corner subtracted is corner 0, the intensity stack holds only "
+        "kornia intensity classes (parsed from the kornia sources), both augmenters return the augmenter's own keypoints.",
+        note="Trusted: ast, the leaf transfer table, kornia applying one sampled transform to all data_keys. Not decided: "
+        "sub-pixel interpolation error, exact output sizes, the affine itself. Observation outside the properties: the "
+        "streaming centered-instance re-crop is centred on an unscaled centroid when scale != 1 (DESIGN.md D12).",
+        technique="abstract interpretation with a units-of-measure domain + structural premises of the leaf contracts",
+        engine="E2 geom + E7 structural",
+        ref="DESIGN.md §4 C04",
+    ),
     "C05": dict(
         text="NaN taint with missing endpoints tainted and the division by the edge norm as a NaN source (0/0 of a "
         "zero-length edge, with a positive control that the source is seen): the per-instance field is scrubbed before it is "
@@ -221,6 +238,22 @@ REGISTRY = {
         engine="E7 structural",
         ref="DESIGN.md §4 C17",
     ),
+    "C18": dict(
+        text="For each model type the E2 interpretation of the in-memory dataset, the .npz branch and chunk function + streaming "
+        "__getitem__ yields an abstract sample signature (frames of image and keypoints, and for each target-generator call "
+        "the generator, the frames it is fed and the sources of sigma/stride); the three signatures must coincide. The "
+        "np_chunks writer/reader branches are checked to be inverse and keyed alike; get_bin_files and the two "
+        "_create_data_loaders_* methods are checked to pair each model type with its own chunk function / streaming class / "
+        "Dataset class and to hand them the scale, crop size, stride, head configs, labels and chunk directory of that model "
+        "type and split; each of the eight legacy DataPipe blocks is interpreted on an abstract example and must have the "
+        "frame effect of its functional counterpart.",
+        note="Trusted: ast, leaf transfer table, storage contract (np.savez/np.load, litdata return what was stored). Not "
+        "decided: pixel equality up to 8-bit quantisation; centered-instance crop centring at scale != 1 (excluded by the "
+        "property).",
+        technique="abstract interpretation (units domain) + sibling-signature comparison + structural wiring tables",
+        engine="E2 geom + E6 siblings",
+        ref="DESIGN.md §4 C18",
+    ),
     "C19": dict(
         text="Typestate analysis (UNMASKED/MASKED) of the trainer's configuration object over the lifecycle "
         "ModelTrainer.__init__ ; train with self-callees inlined: every persistence sink (the five OmegaConf.save "
@@ -258,6 +291,9 @@ REGISTRY = {
         engine="E5 schema",
         ref="DESIGN.md §4 C20",
     ),
+    "C16": dict(na="every clause (perfect scores for perfect predictions, ratios in [0,1], monotonicity in thresholds, recall under deletion) is a "
+                   "statement about floating-point results of cumsum/searchsorted/percentile over arbitrary label sets; no clause is visible in the shape of "
+                   "the code, so static analysis cannot decide it (DESIGN.md section 6)"),
 }
 
 ALL = ["C%02d" % i for i in range(1, 21)]
